@@ -5,7 +5,7 @@ from mcx import cli
 
 PID = 'C15'
 CHUNK = 4
-TOLERANCE = 'segment ends 1e-9 of the size; radii, load impedances, voltages, media constants 1e-5 (printed precision); feed impedance 1e-5'
+TOLERANCE = 'segment ends 1e-9 of the size; radii, load impedances, voltages, media constants 1e-5 (printed precision); feed impedance 1e-4'
 RULE = ('Deviation-bounded exploration from 4 valid base command lines (wire dipole; arc + helix + wire with tags and '
         'per-tag transformations; grounded wires over two media with radials; loaded three-wire structure): the base, '
         'every single deviation and (thorough) every pair of deviations from a menu of ~60 that covers explicit '
@@ -241,7 +241,8 @@ def evaluate(c):
             m2.compute()
             z1 = np.array([s.impedance for s in m1.sources])
             z2 = np.array([s.impedance for s in m2.sources])
-            if np.max(np.abs(z1 - z2) / np.abs(z1)) > 1e-5:
+            # parameters are printed with 6 digits (5e-7); the feed impedance may amplify that by its sensitivity: 1e-4
+            if np.max(np.abs(z1 - z2) / np.abs(z1)) > 1e-4:
                 viol.append(('FEED-Z', '%s: feed impedance %s read back as %s' % (label, z1, z2)))
         except np.linalg.LinAlgError:
             pass
